@@ -32,7 +32,7 @@ Definition child_names (t : loc) (p : path) : list string :=
 (* ------------------------------------------------------------------ protovalidate rules of the sourcedef / schema protos *)
 (* hand-copied from proto/j5build/j5/sourcedef/v1/file.proto and proto/j5/j5/schema/v1/schema.proto (the
    (buf.validate.field) / (buf.validate.oneof) annotations): (schema, JSON name, proto field name, rule) *)
-Inductive vrule := VReqMsg | VReqRepeated | VReqString | VEnumNonZero | VNamePattern | VOneofRequired.
+Inductive vrule := VReqMsg | VReqRepeated | VReqString | VEnumNonZero | VNamePattern | VOneofRequired | VEntityPattern.
 Definition vrules : list (string * string * string * vrule) :=
   [ ("j5.sourcedef.v1.Entity", "status", "status", VReqRepeated);
     ("j5.sourcedef.v1.APIMethod", "httpMethod", "http_method", VEnumNonZero);
@@ -42,10 +42,33 @@ Definition vrules : list (string * string * string * vrule) :=
     ("j5.sourcedef.v1.TopicType_Event", "message", "message", VReqMsg);
     ("j5.sourcedef.v1.TopicMethod", "name", "name", VNamePattern);
     ("j5.schema.v1.Field", "", "type", VOneofRequired);
+    ("j5.schema.v1.EntityObject", "entity", "entity", VEntityPattern);
     ("j5.schema.v1.IntegerField", "format", "format", VEnumNonZero);
     ("j5.schema.v1.KeyFormat_Custom", "pattern", "pattern", VReqString) ].
+(* the annotations [vrules] was written from, as the translator reads them from the two .proto files on every run
+   (WalkSchemaGen.validate_annotations; agreement lemma validate_sources_agree): `response` required = false is no
+   rule *)
+Definition vrule_sources : list (string * string * string) :=
+  [ ("file.proto", "status", "(buf.validate.field).required = true");
+    ("file.proto", "http_method", "(buf.validate.field).enum = { not_in: 0 defined_only: true }");
+    ("file.proto", "request", "(buf.validate.field).required = true");
+    ("file.proto", "response", "(buf.validate.field).required = false");
+    ("file.proto", "def", "(buf.validate.field).required = true, (j5.ext.v1.field).message.flatten = true");
+    ("file.proto", "message", "(buf.validate.field).required = true");
+    ("file.proto", "message", "(buf.validate.field).required = true");
+    ("file.proto", "name", "(buf.validate.field).string.pattern = ""^[A-Z][A-Za-zA-Z0-9]+$""");
+    ("schema.proto", "entity", "(buf.validate.field).string.pattern = ""^[A-Z][a-zA-Z0-9_]*$""");
+    ("schema.proto", "format", "(buf.validate.field) = { enum: {not_in: 0} required: true }");
+    ("schema.proto", "pattern", "(buf.validate.field).required = true");
+    ("schema.proto", "oneof", "(buf.validate.oneof).required = true") ].
+(* every annotated field has a rule (by proto field name; the oneof rule is named after the oneof) or is one of the two exemptions *)
+Definition vrule_covered (row : string * string * string) : bool :=
+  let f := snd (fst row) in
+  existsb (fun r => String.eqb (snd (fst r)) f || (String.eqb f "oneof" && String.eqb (snd (fst r)) "type")) vrules
+  || String.eqb f "response".
+
 (* schemas whose rules are not modelled (string patterns on implicit-presence fields) *)
-Definition vunmodelled : list string := ["j5.schema.v1.EntityObject"].
+Definition vunmodelled : list string := [].
 
 Definition is_upper (c : N) : bool := N.leb 65 c && N.leb c 90.
 Definition is_lower (c : N) : bool := N.leb 97 c && N.leb c 122.
@@ -55,6 +78,12 @@ Definition name_pattern_ok (l : list N) : bool :=
   match l with
   | c :: (_ :: _) as r => is_upper c && forallb (fun x => is_upper x || is_lower x || is_digit x) r
   | _ => false
+  end.
+(* ^[A-Z][a-zA-Z0-9_]*$ on a string without presence: the empty string is validated too *)
+Definition entity_pattern_ok (l : list N) : bool :=
+  match l with
+  | c :: r => is_upper c && forallb (fun x => is_upper x || is_lower x || is_digit x || N.eqb x 95) r
+  | [] => false
   end.
 Definition lit_unspecified : list N := runes_of_string "UNSPECIFIED".
 Fixpoint is_suffix_N (s l : list N) : bool :=
@@ -82,6 +111,7 @@ Definition check_rule (t : loc) (vals : list (path * sval)) (p : path) (r : stri
           | None => []
           end
       | VOneofRequired => match child_names t p with [] => [(p, pn)] | _ => [] end
+      | VEntityPattern => if entity_pattern_ok (str_at vals (p ++ [jn])) then [] else [(p, pn)]
       end
   end.
 
@@ -153,9 +183,22 @@ Section Abstraction.
   Variable t : loc.
   Variable vals : list (path * sval).
 
-  Definition ref_of (q : path) (inline : string) (dflt : ref_out) : ref_out :=
-    if loc_has t (q ++ ["ref"]) then resolve (str_at vals (q ++ ["ref"; "package"])) (str_at vals (q ++ ["ref"; "schema"]))
-    else if loc_has t (q ++ [inline]) then dflt else RNil.
+  (* a reference into an implicitly imported j5 package (`object:j5.state.v1.StateMetadata`) is taken as found in
+     another file; an object / oneof field with neither a reference nor an inline body (`field child object {` `}`) is
+     an inline type without members (sourcewalk builds it), an enum field without either has no type *)
+  Definition j5_prefix : list N := runes_of_string "j5.".
+  Fixpoint is_prefix_N (p l : list N) : bool :=
+    match p, l with
+    | [], _ => true
+    | x :: r, y :: s => N.eqb x y && is_prefix_N r s
+    | _ :: _, [] => false
+    end.
+  Definition ref_of (q : path) (inline : string) (want : refkind) (dflt : ref_out) : ref_out :=
+    if loc_has t (q ++ ["ref"]) then
+      let pkg := str_at vals (q ++ ["ref"; "package"]) in
+      if is_prefix_N j5_prefix pkg then RFound want CmpbFields.FOther else resolve pkg (str_at vals (q ++ ["ref"; "schema"]))
+    else if loc_has t (q ++ [inline]) then dflt
+    else match want with CmpbFields.KMsg => dflt | CmpbFields.KEnum => RNil end.
 
   Definition int_fmt (l : list N) : intfmt :=
     if is_suffix_N (runes_of_string "UINT32") l then U32 else if is_suffix_N (runes_of_string "UINT64") l then U64
@@ -177,6 +220,24 @@ Section Abstraction.
     Some (mkIR (match mn with Some _ => true | None => false end) (match mx with Some _ => true | None => false end)
                (ob "exclusiveMinimum") (ob "exclusiveMaximum") (over mn || over mx || crossed)).
 
+  (* the values a `rules.in` / `rules.notIn` lists, against the options of the enum when it is a top-level enum of
+     this file (otherwise taken as existing) *)
+  Definition array_vals (q : path) : list (list N) :=
+    map (fun e => snd (snd e)) (filter (fun e => path_eqb (fst e) q) vals).
+  Definition local_enum_options (name : list N) : option (list (list N)) :=
+    match find (fun k => loc_has t ["elements"; k; "enum"] && list_N_eqb (str_at vals ["elements"; k; "enum"; "name"]) name)
+               (child_names t ["elements"]) with
+    | Some k => Some (map (fun o => str_at vals ["elements"; k; "enum"; "options"; o; "name"]) (child_names t ["elements"; k; "enum"; "options"]))
+    | None => None
+    end.
+  Definition enum_values_ok (a : path) : bool :=
+    match str_at vals (a ++ ["ref"; "package"]), local_enum_options (str_at vals (a ++ ["ref"; "schema"])) with
+    | [], Some opts =>
+        forallb (fun v => existsb (fun o => is_suffix_N o v || is_suffix_N v o) opts)
+                (array_vals (a ++ ["rules"; "in"]) ++ array_vals (a ++ ["rules"; "notIn"]))
+    | _, _ => true
+    end.
+
   (* the abstract field of a j5.schema.v1.Field message at location path [q]; items of arrays / maps are
      fields again: [TOther] as the converter's default arm *)
   Definition abs_fty (q : path) : fty :=
@@ -185,9 +246,9 @@ Section Abstraction.
     | arm :: _ =>
         let a := q ++ [arm] in
         let has n := loc_has t (a ++ [n]) in
-        if String.eqb arm "object" then TObject (ref_of a "object" RInlineObject) (bool_at vals (a ++ ["flatten"])) (has "rules")
-        else if String.eqb arm "oneof" then TOneof (ref_of a "oneof" RInlineOneof) (has "rules") (has "listRules")
-        else if String.eqb arm "enum" then TEnum (ref_of a "enum" RInlineEnum) (if has "rules" then Some true else None) (has "listRules")
+        if String.eqb arm "object" then TObject (ref_of a "object" CmpbFields.KMsg RInlineObject) (bool_at vals (a ++ ["flatten"])) (has "rules")
+        else if String.eqb arm "oneof" then TOneof (ref_of a "oneof" CmpbFields.KMsg RInlineOneof) (has "rules") (has "listRules")
+        else if String.eqb arm "enum" then TEnum (ref_of a "enum" CmpbFields.KEnum RInlineEnum) (if has "rules" then Some (enum_values_ok a) else None) (has "listRules")
         else if String.eqb arm "bool" then TBool (has "rules") (has "listRules")
         else if String.eqb arm "bytes" then TBytes (has "rules")
         else if String.eqb arm "date" then TDate (has "rules") (has "listRules")
@@ -225,12 +286,24 @@ Section Abstraction.
     | [] => Plain TOther
     end.
 
-  (* one j5.schema.v1.ObjectProperty at location path [q]; [src] = the path of the sourcewalk node errors go to *)
+  (* one j5.schema.v1.ObjectProperty at location path [q]; [src] = the path of the sourcewalk PropertyNode errors go to
+     (schema.go mapProperties); the RefNode of its (item) type: property.go buildFieldNode *)
+  Definition ref_path (q src : path) : path :=
+    let sch := q ++ ["schema"] in
+    match child_names t sch with
+    | arm :: _ =>
+        if String.eqb arm "array" then
+          src ++ ["schema"; "array"; "items"] ++ (match child_names t (sch ++ ["array"; "items"]) with k :: _ => [k] | [] => [] end) ++ ["ref"]
+        else if String.eqb arm "map" then
+          src ++ ["schema"; "map"; "itemSchema"] ++ (match child_names t (sch ++ ["map"; "itemSchema"]) with k :: _ => [k] | [] => [] end) ++ ["ref"]
+        else src ++ ["schema"; arm; "ref"]
+    | [] => src ++ ["schema"; "ref"]
+    end.
   Definition abs_lprop (q src : path) : lprop :=
     let sch := q ++ ["schema"] in
     let nilsch := match child_names t sch with [] => true | _ => false end in
     mkLP (mkProp nilsch (abs_shape sch) (bool_at vals (q ++ ["required"])) (bool_at vals (q ++ ["explicitlyOptional"])))
-         src (src ++ ["schema"; "ref"]).
+         src (ref_path q src).
 
   Definition abs_props (q src : path) : list lprop :=
     map (fun k => abs_lprop (q ++ [k]) (src ++ [k])) (child_names t q).
@@ -271,15 +344,15 @@ Section Abstraction.
     | kind :: _ =>
         let q := e ++ [kind] in
         if String.eqb kind "object" then
-          [LObject q (loc_has t (q ++ ["def"; "entity"])) (abs_props (q ++ ["def"; "properties"]) (q ++ ["object"; "def"; "properties"]))]
+          [LObject (q ++ ["object"]) (loc_has t (q ++ ["def"; "entity"])) (abs_props (q ++ ["def"; "properties"]) (q ++ ["object"; "def"; "properties"]))]
         else if String.eqb kind "oneof" then
-          [LOneof q (abs_props (q ++ ["def"; "properties"]) (q ++ ["oneof"; "def"; "properties"]))]
+          [LOneof (q ++ ["oneof"]) (abs_props (q ++ ["def"; "properties"]) (q ++ ["oneof"; "def"; "properties"]))]
         else if String.eqb kind "enum" then
           [LEnum q (mkEnum (Nat.ltb 0 (child_count t (q ++ ["info"])))
                           (map (fun o => loc_has t (q ++ ["options"; o; "info"])) (child_names t (q ++ ["options"]))))]
         else if String.eqb kind "service" then
           [LService q (loc_has t (q ++ ["options"]))
-                    (map (fun m => (abs_method (q ++ ["methods"; m]), q ++ ["methods"; m])) (child_names t (q ++ ["methods"])))]
+                    (map (fun m => (abs_method (q ++ ["methods"; m]), q ++ ["methods"; m; "request"])) (child_names t (q ++ ["methods"])))]
         else if String.eqb kind "topic" then [LTopic q (abs_topic q)]
         else []
     | [] => []
@@ -291,19 +364,36 @@ End Abstraction.
 (* ------------------------------------------------------------------ the walk step of the front end *)
 Definition E_UNMODELLED : string := "walker: outside the model".
 
-Definition j5s_walk (resolve : list N -> list N -> ref_out) (body : list stmt) : outcome walk_out :=
+(* [mk_resolve]: how a type reference resolves, given the filled file (so that it may look at the file's own
+   declarations) *)
+Definition j5s_walk_gen (mk_resolve : loc -> list (path * sval) -> list N -> list N -> ref_out) (body : list stmt) : outcome walk_out :=
   match walk_schema body with
-  | ROk _ s =>
+  | SOk s =>
       match validate s with
-      | VlOk [] => Ok (WalkFile (ws_loc s) (abs_decls resolve (ws_loc s) (ws_vals s)))
+      | VlOk [] => Ok (WalkFile (ws_loc s) (abs_decls (mk_resolve (ws_loc s) (ws_vals s)) (ws_loc s) (ws_vals s)))
       | VlOk vs => Ok (WalkErrs (map (violation_span (ws_loc s)) vs))
       | VlUnmod _ => Err E_UNMODELLED
       end
-  | RErr (Some sp) _ => Ok (WalkErrs [sp])
-  | RErr None _ => Panic "walker: error without a position left doBody"
-  | RPanic x => Panic x
-  | RUnmod _ => Err E_UNMODELLED
+  | SErr sp _ => Ok (WalkErrs [sp])
+  | SPanic x => Panic x
+  | SUnmod _ => Err E_UNMODELLED
   end.
+Definition j5s_walk (resolve : list N -> list N -> ref_out) : list stmt -> outcome walk_out := j5s_walk_gen (fun _ _ => resolve).
+
+(* a file alone in its package: a reference without package part resolves to a top-level object / oneof / enum of
+   the file itself; everything else is not found *)
+Definition resolve_in_file (t : loc) (vals : list (path * sval)) (pkg schema : list N) : ref_out :=
+  match pkg with
+  | _ :: _ => RNotFound
+  | [] =>
+      match find (fun k => existsb (fun kd => loc_has t ["elements"; k; fst kd] && list_N_eqb (str_at vals (["elements"; k; fst kd] ++ snd kd)) schema)
+                                   [("object", ["def"; "name"]); ("oneof", ["def"; "name"]); ("enum", ["name"])])
+                 (child_names t ["elements"]) with
+      | Some k => if loc_has t ["elements"; k; "enum"] then RFound CmpbFields.KEnum FSame else RFound CmpbFields.KMsg FSame
+      | None => RNotFound
+      end
+  end.
+Definition j5s_walk_alone : list stmt -> outcome walk_out := j5s_walk_gen resolve_in_file.
 
 (* every reference resolves nowhere: the file alone, nothing else in its package *)
 Definition resolve_none (_ _ : list N) : ref_out := RNotFound.
